@@ -13,7 +13,7 @@ Record node := mkNode {
   n_chosen : option id; n_force : tri; n_req : tri;
   n_elems : list eid; n_pxe : bool }.
 Record store := mkStore { nodes : list node; el_leaf : list (eid * id) (* parent_xsd_element *);
-                          root : id (* element's _child_container_tree *); unordered : list (eid*positive); out : nat; names : list (eid*positive) }.
+                          root : id (* element's _child_container_tree *); unordered : list (eid*positive); out : nat; names : list (eid*positive); parented : list eid (* children whose _parent is the element *) }.
 Inductive res (A:Type) := Ok (a:A) | Err (e:exn).
 Arguments Ok {A}. Arguments Err {A}.
 Definition M A := store -> res A * store.
@@ -26,10 +26,10 @@ Definition getS : M store := fun s => (Ok s, s).
 Definition dummy := mkNode KSeq 0 None [] None [] true None None None None TNone TNone [] false.
 Definition get (i:id) : M node := fun s => (Ok (nth i (nodes s) dummy), s).
 Fixpoint set_nth {A} (i:nat) (x:A) (l:list A) := match l, i with [], _ => [] | _::t, 0 => x::t | h::t, S j => h :: set_nth j x t end.
-Definition put (i:id) (n:node) : M unit := fun s => (Ok tt, mkStore (set_nth i n (nodes s)) (el_leaf s) (root s) (unordered s) (out s) (names s)).
+Definition put (i:id) (n:node) : M unit := fun s => (Ok tt, mkStore (set_nth i n (nodes s)) (el_leaf s) (root s) (unordered s) (out s) (names s) (parented s)).
 Definition upd (i:id) (f:node->node) : M unit := n <- get i ;; put i (f n).
-Definition alloc (n:node) : M id := fun s => (Ok (length (nodes s)), mkStore (nodes s ++ [n]) (el_leaf s) (root s) (unordered s) (out s) (names s)).
-Definition set_root (i:id) : M unit := fun s => (Ok tt, mkStore (nodes s) (el_leaf s) i (unordered s) (out s) (names s)).
+Definition alloc (n:node) : M id := fun s => (Ok (length (nodes s)), mkStore (nodes s ++ [n]) (el_leaf s) (root s) (unordered s) (out s) (names s) (parented s)).
+Definition set_root (i:id) : M unit := fun s => (Ok tt, mkStore (nodes s) (el_leaf s) i (unordered s) (out s) (names s) (parented s)).
 Definition get_root : M id := fun s => (Ok (root s), s).
 Definition size : M nat := fun s => (Ok (length (nodes s)), s).
 (* field setters *)
@@ -317,9 +317,9 @@ Definition fix_root_after_dup (self:id) : M unit :=
   match n_parent n with Some u => if n_pxe n then set_root u else ret tt | None => ret tt end.
 Definition attach (e:eid) (s:positive) (leaf:id) : M unit :=
   upd leaf (fun n => w_elems (n_elems n ++ [e]) n) ;;;
-  (fun st => (Ok tt, mkStore (nodes st) ((e,leaf) :: el_leaf st) (root st) (unordered st) (out st) (names st))).
-Definition print_out : M unit := fun st => (Ok tt, mkStore (nodes st) (el_leaf st) (root st) (unordered st) (S (out st)) (names st)).
-Definition reg_name (e:eid) (s:positive) : M unit := fun st => (Ok tt, mkStore (nodes st) (el_leaf st) (root st) (unordered st) (out st) ((e,s) :: names st)).
+  (fun st => (Ok tt, mkStore (nodes st) ((e,leaf) :: el_leaf st) (root st) (unordered st) (out st) (names st) (parented st))).
+Definition print_out : M unit := fun st => (Ok tt, mkStore (nodes st) (el_leaf st) (root st) (unordered st) (S (out st)) (names st) (parented st)).
+Definition reg_name (e:eid) (s:positive) : M unit := fun st => (Ok tt, mkStore (nodes st) (el_leaf st) (root st) (unordered st) (out st) ((e,s) :: names st) (parented st)).
 Fixpoint assocp (e:eid) (l:list (eid*positive)) : positive := match l with [] => 1%positive | (x,i)::t => if Nat.eqb x e then i else assocp e t end.
 Definition name_of (e:eid) : M positive := st <- getS ;; ret (assocp e (names st)).
 (* add_element; [on_none] is what happens when select_valid_leaves returns python None *)
@@ -436,15 +436,20 @@ Definition check_required_elements_ic (fuel:nat) (self:id) (ic:bool) : M bool :=
   else ret b.
 (* ---------- XMLElement level ---------- *)
 Definition FUEL := 2000.
+Definition set_parented (f:list eid -> list eid) : M unit :=
+  fun st => (Ok tt, mkStore (nodes st) (el_leaf st) (root st) (unordered st) (out st) (names st) (f (parented st))).
+Fixpoint remove_first_u (e:eid) (l:list (eid*positive)) := match l with [] => [] | h::t => if Nat.eqb (fst h) e then t else h :: remove_first_u e t end.
+Fixpoint replace_first_u (old:eid) (nw:eid*positive) (l:list (eid*positive)) := match l with [] => [] | h::t => if Nat.eqb (fst h) old then nw :: t else h :: replace_first_u old nw t end.
 Definition el_add_child (e:eid) (s:positive) (fw:option nat) : M unit :=
   reg_name e s ;;;
   r <- get_root ;; _ <- add_element FUEL r e s fw ;;
-  (fun st => (Ok tt, mkStore (nodes st) (el_leaf st) (root st) (unordered st ++ [(e,s)]) (out st) (names st))).
+  (fun st => (Ok tt, mkStore (nodes st) (el_leaf st) (root st) (unordered st ++ [(e,s)]) (out st) (names st) (parented st))) ;;;
+  set_parented (fun l => e :: filter (fun x => negb (Nat.eqb x e)) l).
 Fixpoint assoc (e:eid) (l:list (eid*id)) : option id := match l with [] => None | (x,i)::t => if Nat.eqb x e then Some i else assoc e t end.
 Definition el_remove (e:eid) : M unit :=
   st <- getS ;;
   if negb (existsb (fun x => Nat.eqb (fst x) e) (unordered st)) then raise EValueError else
-  (fun st => (Ok tt, mkStore (nodes st) (el_leaf st) (root st) (filter (fun x => negb (Nat.eqb (fst x) e)) (unordered st)) (out st) (names st))) ;;;
+  (fun st => (Ok tt, mkStore (nodes st) (el_leaf st) (root st) (remove_first_u e (unordered st)) (out st) (names st) (parented st))) ;;;
   match assoc e (el_leaf st) with None => raise EAttributeNone | Some leaf =>
     ln <- get leaf ;;
     match n_parent ln with None => raise EAttributeNone | Some pc =>
@@ -452,7 +457,7 @@ Definition el_remove (e:eid) : M unit :=
       (if oid_eqb (n_chosen pn) leaf then upd pc (w_chosen None) ;;; upd pc (w_req TFalse) else ret tt) ;;;
       (if existsb (Nat.eqb e) (n_elems ln) then ret tt else raise EValueError) ;;;
       upd leaf (fun n => w_elems (remove_first e (n_elems n)) n) ;;;
-      (fun st => (Ok tt, mkStore (nodes st) (filter (fun x => negb (Nat.eqb (fst x) e)) (el_leaf st)) (root st) (unordered st) (out st) (names st))) ;;;
+      (fun st => (Ok tt, mkStore (nodes st) (filter (fun x => negb (Nat.eqb (fst x) e)) (el_leaf st)) (root st) (unordered st) (out st) (names st) (parented st))) ;;;
       p <- rpath FUEL pc ;;
       iterM (fun nd =>
         m <- get nd ;;
@@ -463,7 +468,8 @@ Definition el_remove (e:eid) : M unit :=
             let rd := match lns with [] => false | l0::_ => match n_elems l0 with [] => true | _ => false end end in
             if rd then tree_remove FUEL u nd else ret tt
           else ret tt
-        end) p
+        end) p ;;;
+      set_parented (filter (fun x => negb (Nat.eqb x e)))
     end
   end.
 Definition el_ordered : M (list eid) :=
@@ -472,19 +478,25 @@ Definition el_replace (old new:eid) (s:positive) : M unit :=
   reg_name new s ;;;
   ord <- el_ordered ;;
   if negb (existsb (Nat.eqb old) ord) then raise EValueError else
-  (fun st => (Ok tt, mkStore (nodes st) (el_leaf st) (root st) (map (fun x => if Nat.eqb (fst x) old then (new,s) else x) (unordered st)) (out st) (names st))) ;;;
+  st0 <- getS ;;
+  (* self._unordered_children.index(old) raises ValueError when old is only in the ordered view *)
+  if negb (existsb (fun x => Nat.eqb (fst x) old) (unordered st0)) then raise EValueError else
+  (fun st => (Ok tt, mkStore (nodes st) (el_leaf st) (root st) (replace_first_u old (new,s) (unordered st)) (out st) (names st) (parented st))) ;;;
   st <- getS ;;
   match assoc old (el_leaf st) with None => raise EAttributeNone | Some leaf =>
     upd leaf (fun n => w_elems (map (fun x => if Nat.eqb x old then new else x) (n_elems n)) n) ;;;
-    (fun st => (Ok tt, mkStore (nodes st) ((new,leaf) :: el_leaf st) (root st) (unordered st) (out st) (names st))) end.
+    (fun st => (Ok tt, mkStore (nodes st) ((new,leaf) :: el_leaf st) (root st) (unordered st) (out st) (names st) (parented st))) ;;;
+    (* new._parent = self ; old._parent = None  (in this order: replacing a child by itself orphans it) *)
+    set_parented (fun l => filter (fun x => negb (Nat.eqb x old)) (new :: filter (fun x => negb (Nat.eqb x new)) l)) end.
 Definition el_verdict (ic:bool) : M (list positive) :=
   r <- get_root ;; _ <- check_required_elements_ic FUEL r ic ;; required_names_after FUEL r.
 Definition init (p:particle) : M unit :=
   t <- build FUEL p ;;
   i <- build FUEL p ;; upd i (w_pxe true) ;;; set_root i.
-Inductive op := OAdd (s:positive) | OAddFwd (s:positive) (i:nat) | ORemove (k:nat) | OReplace (k:nat) (s:positive) | OReplaceSame (k:nat) | OFinal (ic:bool).
-Record line := mkLine { l_exn : option exn; l_ordered : list eid; l_unordered : list (eid*positive); l_req : option (list positive); l_out : nat }.
-Definition empty_store := mkStore [] [] 0 [] 0 [].
+Inductive op := OAdd (s:positive) | OAddFwd (s:positive) (i:nat) | ORemove (k:nat) | OReplace (k:nat) (s:positive) | OReplaceSame (k:nat) | OAddExisting (k:nat) | OReplaceSelf (k:nat) | OFinal (ic:bool).
+Record line := mkLine { l_exn : option exn; l_ordered : list eid; l_unordered : list (eid*positive); l_req : option (list positive); l_out : nat; l_orphans : list eid }.
+Definition orphans (st:store) : list eid := filter (fun e => negb (existsb (Nat.eqb e) (parented st))) (map fst (unordered st)).
+Definition empty_store := mkStore [] [] 0 [] 0 [] [].
 Definition catch {A} (m:M A) (st:store) : option exn * store := match m st with (Ok _, s1) => (None, s1) | (Err e, s1) => (Some e, s1) end.
 Fixpoint run_ops (ops:list op) (next:eid) (st:store) : list line :=
   match ops with [] => [] | o::t =>
@@ -495,16 +507,18 @@ Fixpoint run_ops (ops:list op) (next:eid) (st:store) : list line :=
       | ORemove k => match nth_error (unordered st) k with None => (None, st) | Some (e,_) => catch (el_remove e) st end
       | OReplace k s => match nth_error (unordered st) k with None => (None, st) | Some (e,_) => catch (el_replace e next s) st end
       | OReplaceSame k => match nth_error (unordered st) k with None => (None, st) | Some (e,s0) => catch (el_replace e next s0) st end
+      | OAddExisting k => match nth_error (unordered st) k with None => (None, st) | Some (e,s0) => catch (el_add_child e s0 None) st end
+      | OReplaceSelf k => match nth_error (unordered st) k with None => (None, st) | Some (e,s0) => catch (el_replace e e s0) st end
       | OFinal _ => (None, st) end in
     let '(vr, st2) := match o with
       | OFinal ic => match el_verdict ic st' with (Ok v, s2) => (Some (Ok v), s2) | (Err e, s2) => (Some (Err e), s2) end
       | _ => (None, st') end in
     let '(ord, st3) := match el_ordered st2 with (Ok l, s3) => (l, s3) | (Err _, s3) => ([], s3) end in
     let ln := match vr with
-              | Some (Ok v) => mkLine r ord (unordered st3) (Some v) (out st3 - o0)
-              | Some (Err e) => mkLine (Some e) ord (unordered st3) None (out st3 - o0)
-              | None => mkLine r ord (unordered st3) None (out st3 - o0) end in
+              | Some (Ok v) => mkLine r ord (unordered st3) (Some v) (out st3 - o0) (orphans st3)
+              | Some (Err e) => mkLine (Some e) ord (unordered st3) None (out st3 - o0) (orphans st3)
+              | None => mkLine r ord (unordered st3) None (out st3 - o0) (orphans st3) end in
     ln :: run_ops t (S next) st3
   end.
 Definition run (p:particle) (ops:list op) : list line :=
-  match init p empty_store with (Ok _, st) => run_ops ops 0 st | (Err e, _) => [mkLine (Some e) [] [] None 0] end.
+  match init p empty_store with (Ok _, st) => run_ops ops 0 st | (Err e, _) => [mkLine (Some e) [] [] None 0 []] end.
